@@ -143,6 +143,44 @@ theorem skipTo_asc (log : List (Nat × Nat)) (c : Nat) : ∀ (l : List Delta) (l
       · rw [if_neg heq]
         exact ihr.2 (by omega) hhi
 
+/-- The deltas `delta_since` merges: all of them if the client has the version the oldest one was
+made from, otherwise what the scan leaves. On a well-formed run and for a client more than one
+version behind, the selection (if any) is the non-empty run from the client's serial. -/
+theorem select_ok (log : List (Nat × Nat)) (c : Nat) (l : List Delta) (lo hi : Nat)
+    (h : AscOk log lo l hi) (hne : l ≠ []) (hc : c + 1 < hi) (r : List Delta)
+    (hr : (if (l.head?.map (·.target)) == some (c + 1) then some l else skipTo c l) = some r) :
+    ∃ x xs, r = x :: xs ∧ AscOk log c (x :: xs) hi := by
+  have nonempty : ∀ (rest : List Delta), AscOk log c rest hi → ∃ x xs, rest = x :: xs := by
+    intro rest hra
+    cases rest with
+    | nil => have : c = hi := by simpa [AscOk] using hra
+             omega
+    | cons x xs => exact ⟨x, xs, rfl⟩
+  split at hr
+  · rename_i hcond
+    simp only [Option.some.injEq] at hr
+    subst hr
+    cases l with
+    | nil => simp at hcond
+    | cons x xs =>
+      have hx : x.target = c + 1 := by simpa using hcond
+      have : lo = c := by have := h.1; omega
+      subst this
+      exact ⟨x, xs, rfl, h⟩
+  · have hsk := skipTo_asc log c l lo hi h
+    by_cases hlo : c ≤ lo
+    · cases l with
+      | nil => exact absurd rfl hne
+      | cons x xs =>
+        rw [hsk.1 hlo (by simp)] at hr
+        simp at hr
+    · obtain ⟨rest, hrest, hra⟩ := hsk.2 (by omega) (by omega)
+      rw [hrest] at hr
+      simp only [Option.some.injEq] at hr
+      subst hr
+      obtain ⟨x, xs, rfl⟩ := nonempty rest hra
+      exact ⟨x, xs, rfl, hra⟩
+
 /-! ### The state invariant -/
 
 structure WF (s : State) : Prop where
@@ -278,8 +316,10 @@ theorem deltaSince_ok (s : State) (c : Nat) (h : WF s) (ha : s.active = true) :
     have hnew := ascOk_newest s.log d rest.reverse _ _ (by simpa using hasc)
     obtain ⟨ht, hfrom, hto⟩ := hnew
     have htoc : d.toD = s.cur := by rw [hcur] at hto; injection hto with h'; exact h'.symm
-    have hsk := skipTo_asc s.log c _ _ _ hasc
+    have hsel := select_ok s.log c (d :: rest).reverse _ _ hasc (by simp)
+    have hhead : (d :: rest).reverse.head? = (d :: rest).getLast? := List.head?_reverse
     simp only [deltaSince, hd]
+    rw [← hhead]
     constructor
     · intro f t hh
       split at hh
@@ -293,23 +333,17 @@ theorem deltaSince_ok (s : State) (c : Nat) (h : WF s) (ha : s.active = true) :
             have : s.serial - 1 = c := by omega
             rw [this] at hfrom
             exact ⟨hfrom, htoc, by omega⟩
-          · by_cases hlo : c ≤ s.serial - (rest.length + 1)
-            · rw [hsk.1 hlo (by simp)] at hh
-              simp at hh
-            · obtain ⟨r, hr, hra⟩ := hsk.2 (by omega) (by omega)
-              rw [hr] at hh
-              cases r with
-              | nil =>
-                have : c = s.serial := by simpa [AscOk] using hra
-                omega
-              | cons x xs =>
-                simp only [mergeRun, Option.some.injEq, Prod.mk.injEq] at hh
-                obtain ⟨hf, htt⟩ := hh
-                subst hf; subst htt
-                have hlast := ascOk_last s.log xs c s.serial x hra
-                rw [hcur] at hlast
-                injection hlast with hl'
-                exact ⟨hra.2.1, hl'.symm, by omega⟩
+          · split at hh
+            · simp at hh
+            · rename_i r hr
+              obtain ⟨x, xs, rfl, hra⟩ := hsel (by omega) r hr
+              simp only [mergeRun, Option.some.injEq, Prod.mk.injEq] at hh
+              obtain ⟨hf, htt⟩ := hh
+              subst hf; subst htt
+              have hlast := ascOk_last s.log xs c s.serial x hra
+              rw [hcur] at hlast
+              injection hlast with hl'
+              exact ⟨hra.2.1, hl'.symm, by omega⟩
     · intro hh
       split at hh
       · simp at hh
@@ -317,15 +351,10 @@ theorem deltaSince_ok (s : State) (c : Nat) (h : WF s) (ha : s.active = true) :
         · omega
         · split at hh
           · simp at hh
-          · by_cases hlo : c ≤ s.serial - (rest.length + 1)
-            · rw [hsk.1 hlo (by simp)] at hh
-              simp at hh
-            · obtain ⟨r, hr, hra⟩ := hsk.2 (by omega) (by omega)
-              rw [hr] at hh
-              cases r with
-              | nil =>
-                have : c = s.serial := by simpa [AscOk] using hra
-                exact this
-              | cons x xs => simp [mergeRun] at hh
+          · split at hh
+            · simp at hh
+            · rename_i r hr
+              obtain ⟨x, xs, rfl, _⟩ := hsel (by omega) r hr
+              simp [mergeRun] at hh
 
 end RoutinatorModel.ServerSched
